@@ -360,7 +360,11 @@ def signature(obj):
         return _mask(sig, len(obj.args), False, False, False, False,
                      obj.keywords or {}, obj)
     sig =_util.funcsigs.signature(obj)
-    ret = set_default_sources(sig, obj)
+    # inspect follows __wrapped__: the annotations it reports were written
+    # in the module of the function it stopped at
+    annotated = _util.funcsigs.unwrap(
+        obj, stop=lambda f: hasattr(f, '__signature__'))
+    ret = Signature._upgrade(sig, annotated, default_sources(sig, obj))
     if not all(name in ret.parameters or name == '+depths'
                for name in ret.sources):
         # obj.__signature__ came with sources and inspect removed parameters
